@@ -27,8 +27,6 @@ import (
 	"testing"
 	"time"
 
-	"pgregory.net/rapid"
-
 	"github.com/krotik/ecal/engine"
 	"github.com/krotik/ecal/interpreter"
 	"github.com/krotik/ecal/parser"
@@ -77,6 +75,13 @@ type Case struct {
 func TestMain(m *testing.M) {
 	registerProbes()
 	hx.Main(m, "C12", rule)
+}
+
+func noteAssumptions() {
+	hx.E.Assume("a finally clause runs on every way out of its try block (the exit probe sits in one; property C04)")
+	hx.E.Assume("probe.enter is the first and probe.exit the last statement inside a block, so the observed occupancy interval lies strictly inside the interval in which the mutex is held")
+	hx.E.Assume(fmt.Sprintf("a state without any probe event or thread completion for %v in which every unfinished thread waits at a block entry is taken as final (expected time: milliseconds)", stuckBound()))
+	hx.E.Assume("schedules are sampled (Go scheduler, start delays, in-block yields/sleeps/holds, an owner-table reader), not enumerated")
 }
 
 // stuckBound is the time without any probe event or thread completion after
@@ -345,6 +350,9 @@ wait:
 		if tick < 50*time.Millisecond {
 			tick *= 2
 		}
+		if st.failed.Load() && bound > 2*time.Second {
+			bound = 2 * time.Second // a violation is already established: do not wait long for the rest
+		}
 		if s := st.seq.Load(); s != lastSeq {
 			lastSeq, lastChange = s, time.Now()
 		} else if time.Since(lastChange) > bound {
@@ -546,7 +554,6 @@ func (st *probeState) classifyStuck(c Case, bound time.Duration, extra string) *
 
 // recordCase writes the evidence of one executed case. Caller holds st.mu (or the case is over).
 func recordCase(c Case, src string, st *probeState, outcome string) {
-	dbgCase(c, st, src)
 	nonfall := 0
 	for k, v := range st.exitsDyn {
 		if k != "fall" {
@@ -637,11 +644,22 @@ func recordCase(c Case, src string, st *probeState, outcome string) {
 	}
 }
 
-func TestRegress(t *testing.T) { hx.Regress(t, runCase) }
+// TestRegress replays committed cases. Outcomes depend on the schedule, so every
+// case is executed several times.
+func TestRegress(t *testing.T) {
+	hx.Regress(t, func(c Case) *hx.Failure {
+		for i := 0; i < 25; i++ {
+			if f := runCase(c); f != nil {
+				return f
+			}
+		}
+		return nil
+	})
+}
 
 // TestExhaustive runs the fixed list of directed cases (sharded).
 func TestExhaustive(t *testing.T) {
-	defer func() { violated = violated || t.Failed() }()
+	noteAssumptions()
 	cases := directedCases()
 	hx.Enumerate(t, "directed", func(yield func(Case) bool) {
 		for _, c := range cases {
@@ -649,7 +667,11 @@ func TestExhaustive(t *testing.T) {
 				return
 			}
 		}
-	}, runCase)
+	}, func(c Case) *hx.Failure {
+		f := runCase(c)
+		violated = violated || f != nil
+		return f
+	})
 	hx.E.Exhaustive("directed", map[string]interface{}{"cases": len(cases), "what": "different names overlap (every ordered pair x creation kinds); exclusion with a parked holder x every exit kind x caught/propagating; re-entry depth 3 under contention"})
 	failInconclusive(t)
 }
@@ -658,6 +680,7 @@ func TestProp(t *testing.T) {
 	if violated {
 		t.Skip("the directed cases already found a violation (its replay file is kept)")
 	}
+	noteAssumptions()
 	hx.Check(t, drawCase, runCase)
 	failInconclusive(t)
 }
@@ -669,5 +692,3 @@ func failInconclusive(t *testing.T) {
 		t.Fatalf("INCONCLUSIVE (not a verdict): %d case(s): %v", len(inconclusive), inconclusive[0])
 	}
 }
-
-var _ = rapid.Check
